@@ -14,6 +14,7 @@ from ..core import AnalysisError, ClassInfo, FuncInfo, call_name, dotted, kwarg,
 from ..flow import conjuncts, dominating_atoms
 from .. import chains, coh, proto
 from .. import fields as F
+from . import shared
 
 SER = 'cirq-google/cirq_google/serialization/circuit_serializer.py'
 PROGRAM_PROTO = 'cirq-google/cirq_google/api/v2/program.proto'
@@ -284,6 +285,8 @@ def run(ctx):
     _reader_defaults(ctx, repo)
     _circuit_op_serializer(ctx, repo)
     _proto_escape(ctx, repo)
+    shared.module_state_rule(ctx, 'C16.i', ['cirq-google/cirq_google/api/', 'cirq-google/cirq_google/serialization/', 'cirq-google/cirq_google/study/', 'cirq-google/cirq_google/devices/'], floor=3)
+    ctx.decided.append('C16.i converters keep no state between calls: module-level containers of the serialization packages are never written from inside a function')
 
 
 # ---------------------------------------------------------------------------
